@@ -669,7 +669,7 @@ void HttpMessage::writeFile(const String& path, int begin, int end)
 	int n = 1;
 	file.seek(begin);
 	Long size = file.size();
-	if (begin != end)
+	if (begin != end || hasHeader("Content-Range"))
 		size = end - begin + 1;
 	int bytesSent = 0;
 	//HttpStatus status;
@@ -705,9 +705,9 @@ bool HttpMessage::putFile(const String& path, int begin, int end)
 	else
 	{
 		Long size = file.size();
-		if (end == 0)
+		if (end < 0 || (end == 0 && header("Content-Range") != "+")) // "+": the server asked for exactly [begin, end]
 			end = int(size - 1);
-		if (end <= begin || begin < 0 || end > size)
+		if (end < begin || begin < 0 || end > size)
 		{
 			setHeader("Content-Length", "0");
 			setHeader("Content-Range", String::f("bytes */%lli", size));
